@@ -163,6 +163,10 @@ type gateway struct {
 	lastRL   clientfc.RateLimiter
 	qps      int
 	burst    int
+	// clockFailed: the scripted clock could not be installed in a limiter the real code built (another concrete
+	// limiter type): the case is run again on the wall clock (wall.go). trackable: the limiter object can be read.
+	clockFailed bool
+	trackable   bool
 }
 
 func (g *gateway) spec() proxyv1alpha1.FlowControl {
@@ -204,17 +208,19 @@ func (g *gateway) attach() (swapped bool) {
 	}
 	rl, ok := flowcontrol.VerifC06Limiter(inner)
 	if !ok {
+		g.trackable = false
+		if g.clk != nil {
+			g.clockFailed = true
+		}
 		return false
 	}
+	g.trackable = true
 	if rl == g.lastRL {
 		return false
 	}
 	g.lastRL = rl
-	if g.clk != nil {
-		if !setClock(rl, g.clk) {
-			fmt.Fprintln(os.Stderr, "C06: the client-go token bucket limiter has no settable `clock` field any more")
-			os.Exit(2)
-		}
+	if g.clk != nil && !setClock(rl, g.clk) {
+		g.clockFailed = true // never fatal: the caller falls back to the wall clock
 	}
 	return true
 }
@@ -278,6 +284,8 @@ type scriptOut struct {
 	Answers []bool // per op: admitted / limiter replaced
 	Obs     []Obs
 	FlagBad string // Resize's answer disagrees with what it did
+	// ClockFailed: some limiter of this script could not be given the scripted clock
+	ClockFailed bool
 }
 
 func runScript(cs Case) (out scriptOut, panicMsg string) {
@@ -285,7 +293,11 @@ func runScript(cs Case) (out scriptOut, panicMsg string) {
 	msg, panicked := rig.Recover(func() {
 		g := newGateway(cs.Path, cs.QPS, cs.Burst, clk)
 		defer g.close()
+		defer func() { out.ClockFailed = g.clockFailed }()
 		for i, op := range cs.Ops {
+			if g.clockFailed {
+				return
+			}
 			if op.RQ != nil {
 				said, swapped := g.reconfigure(*op.RQ, *op.RB, op.Variant)
 				if said != nil && *said != swapped && out.FlagBad == "" {
@@ -357,6 +369,10 @@ func checkScript(c *rig.Ctx, cs Case) *failure {
 
 func checkScriptOut(c *rig.Ctx, cs Case) (*failure, scriptOut) {
 	out, pmsg := runScript(cs)
+	if out.ClockFailed && pmsg == "" {
+		noteBrokenTie(c, "script")
+		return runScriptWall(c, cs), out
+	}
 	f := judgeScript(c, cs, out, pmsg)
 	return f, out
 }
@@ -570,6 +586,7 @@ type schedOut struct {
 	Admitted   int
 	Serialised bool // a caller could not reach the clock while another one was paused after reading it
 	Hiccup     bool
+	NoClock    bool
 	First      string
 	Last       string
 }
@@ -582,6 +599,10 @@ func runSched(cs Case) (out schedOut) {
 	out.First, out.Last = cur.String(), cur.String()
 	g := newGateway(cs.Path, cs.QPS, cs.Burst, clk)
 	defer g.close()
+	if g.clockFailed {
+		out.NoClock = true
+		return out
+	}
 	type res struct {
 		ok bool
 		t  time.Time
@@ -664,6 +685,10 @@ func runSched(cs Case) (out schedOut) {
 
 func checkSched(c *rig.Ctx, cs Case) *failure {
 	out := runSched(cs)
+	if out.NoClock {
+		noteBrokenTie(c, "sched")
+		return nil
+	}
 	if out.Hiccup {
 		c.Count("sched:hiccup-skipped")
 		return nil
